@@ -1396,7 +1396,7 @@ def program_cases(draw):
     batch = kind in BATCH_KINDS
     flow = kind in ("FlowFields", "FlowField")
     shape = draw(st.lists(st.integers(1, 4), min_size=D, max_size=D))
-    case = {"kind": kind, "N": draw(st.sampled_from([1, 2, 3, 3, 4])) if batch else 1, "C": D if flow else draw(st.integers(1, 3)),
+    case = {"kind": kind, "N": draw(st.sampled_from([1, 2, 3, 3, 4, 4, 5, 6])) if batch else 1, "C": D if flow else draw(st.integers(1, 3)),
             "shape": shape, "dtype": draw(st.sampled_from(["float32", "float32", "float64"])), "ac": draw(st.booleans())}
     if batch:
         case["M"] = draw(st.integers(1, 2))
@@ -1509,6 +1509,10 @@ def survey_ops(batch: bool, nd: int, n0: int, c: int, sp) -> List[dict]:
                 ops.append({"op": "tensor_split", "sec": [1], "sectype": "list", "dim": d, "ds": ds, "style": style, "pick": 1})
             ops.append({"op": "split", "sec": 2, "dim": d, "ds": ds, "style": "method", "pick": 1})
             ops.append({"op": "split", "sec": [n - 1, 1], "sectype": "tuple", "dim": d, "ds": ds, "style": "method", "pick": 1})
+            if n >= 4:  # three or more chunks of non-uniform size
+                ops.append({"op": "split", "sec": [1, n - 2, 1], "sectype": "list", "dim": d, "ds": ds, "style": "method", "pick": 2})
+                ops.append({"op": "split_with_sizes", "sec": [1, n - 2, 1], "dim": d, "ds": ds, "style": "torch", "pick": 2})
+                ops.append({"op": "tensor_split", "sec": [1, n - 1], "sectype": "list", "dim": d, "ds": ds, "style": "method", "pick": 2})
             ops.append({"op": "tensor_split", "sec": 2, "dim": d, "ds": ds, "style": "method", "pick": 1})
             ops.append({"op": "tensor_split", "sec": [1, 2], "sectype": "tuple", "dim": d, "ds": ds, "style": "method", "pick": 2})
             ops.append({"op": "tensor_split", "sec": [1], "sectype": "tensor", "dim": d, "ds": ds, "style": "torch", "pick": 1})
